@@ -249,8 +249,12 @@ class WSStream:
                 )
                 await self.app_put({"type": "websocket.connect"})
         elif isinstance(event, (Body, Data)) and not self.handshake.accepted:
-            await self._send_error_response(400)
-            self.closed = True
+            if self.state == ASGIWebsocketState.HANDSHAKE:
+                await self._send_error_response(400)
+                self.closed = True
+            # Otherwise a HTTP response (the rejection of the
+            # handshake) has been started or sent, it must not be
+            # followed by a second response. The data is ignored.
         elif isinstance(event, (Body, Data)):
             self.connection.receive_data(event.data)
             await self._handle_events()
